@@ -290,8 +290,16 @@ def run(pm, ctx):
             e = evs[0]
             ctx.violation("C06-c", pu.relpath, gname, norm_src(e.stmt())[:160], f"[{e.kind}] {e.msg}", line=getattr(e.node, "lineno", None), site=site)
             continue
+        # the rows of a group are those listed in the group: selecting by a position range takes other groups' rows along
+        posn = [e for e in I.events if e.kind == "usage" and e.detail.get("cls") == "positional" and str(e.detail.get("axis")) == "D"
+                and e.detail.get("op") in ("slice", "slice-object", "prefix-slice")] if hasattr(I, "events") else []
+        if posn:
+            e = posn[0]
+            ctx.violation("C06-c", pu.relpath, gname, norm_src(e.stmt())[:160], "the rows of a group are selected by a range of positions along the feature axis instead of by "
+                          "the indices listed in the group: a non-contiguous or unsorted group is shrunk together with rows of other groups", line=getattr(e.node, "lineno", None), site=site)
+            continue
         if not seen_args:
-            ctx.violation("C06-c", pu.relpath, gname, gname, f"the group operator never calls {elem}", line=gf.lineno, site=site)
+            ctx.unrecognised("C06-c", site, f"the group operator does not call {elem}: an inlined operator is not judged by this rule")
             continue
         bad = []
         for a, q in seen_args:
